@@ -85,19 +85,6 @@ func c14DefaultMargin(ws *writerSpec) int {
 	return 10
 }
 
-func maxInt(a, b int) int {
-	if a > b {
-		return a
-	}
-	return b
-}
-func minInt(a, b int) int {
-	if a < b {
-		return a
-	}
-	return b
-}
-
 func c14Render(r *fw.Rec, ws *writerSpec, content string, mod [][]bool, reqW, reqH, margin int) bool {
 	var hints map[gozxing.EncodeHintType]interface{}
 	if margin >= 0 {
